@@ -156,6 +156,35 @@ def run_impl_cell(subs, c):
         return ('exc', common.exc_class(e))
 
 
+def storage_cells(only=None):
+    """every (storage prefix, prefix, base in {L, mol}, direction): the value against the exact ratio of the prefixes"""
+    from pyplate import Unit
+    from pyplate.pyplate import config
+    saved = (config.volume_storage_unit, config.moles_storage_unit)
+    fails = []
+    try:
+        for sn, _, sm in PREFIXES:
+            config.volume_storage_unit, config.moles_storage_unit = sn + 'L', sn + 'mol'
+            for pn, _, pm in PREFIXES:
+                for b in ('L', 'mol'):
+                    for to in (True, False):
+                        if only and [sn, pn, b, to] != only:
+                            continue
+                        v = 3.5
+                        exp = F('3.5') * (pm / sm if to else sm / pm)
+                        try:
+                            got = (Unit.convert_to_storage if to else Unit.convert_from_storage)(v, pn + b)
+                            ok = close(got, exp, 0, 1e-9) or abs(F(got) - exp) <= F(1, 10**10)
+                        except Exception as e:  # noqa
+                            got, ok = common.exc_class(e), False
+                        if not ok:
+                            fails.append((f"with {b if b == 'L' else 'moles'} stored in {sn + b}: convert_{'to' if to else 'from'}_storage({v}, {pn + b!r}) = {got!r}, "
+                                          f"the ratio of the prefixes gives {float(exp)!r}", {'storage_cell': [sn, pn, b, to]}))
+    finally:
+        config.volume_storage_unit, config.moles_storage_unit = saved
+    return fails
+
+
 def run(chk, gate, status):
     from pyplate import Unit
     from pyplate.pyplate import config
@@ -251,6 +280,12 @@ def run(chk, gate, status):
         if not (abs(b - c) <= 1e-12 * abs(c) and abs(back - 1.75) <= 1e-12):
             chk.violation(f"composition/round trip fails for {kind} {u1}->{u2}->{u3}: {b} vs {c}, back {back}",
                           {'kind': kind, 'params': PARAMS[pi], 'units': [u1, u2, u3], 'values': [a, b, c, back]})
+    # the storage conversions under every storage configuration (display units left at their defaults, so that a confusion of
+    # the two settings shows): convert_to_storage / convert_from_storage are the ratio of the two prefixes
+    sfails = storage_cells()
+    for msg, doc in sfails[:3]:
+        oracle_fail += 1
+        chk.violation(msg, doc)
     cfails, ncfg = config_part(chk)
     for msg, doc in cfails[:3]:
         oracle_fail += 1
@@ -277,6 +312,12 @@ def run(chk, gate, status):
 def replay(path):
     r = json.load(open(path))
     print(json.dumps(r, indent=1))
+    if 'storage_cell' in r:
+        f = storage_cells(only=r['storage_cell'])
+        for msg, _ in f:
+            print('PROPERTY FAILS:', msg)
+        print('property', 'FAILS' if f else 'HOLDS', 'on this input')
+        return 1 if f else 0
     if 'cell' in r and isinstance(r['cell'], list):
         from pyplate import Unit
         pi, kind, q, fpn, fb, tpn, tb = r['cell']
